@@ -353,4 +353,5 @@ def run(chk):
     common.arg_agreement_rule(chk, P, "C15", [("emit_core", "src/timestamp.rs"), ("emit", "src/span.rs"), ("emit_traceparent", None),
                                                ("emit_core", "src/path.rs"), ("emit", "src/level.rs")], 5)
     common.hex_id_fromvalue_rule(chk, P, "C15")
+    common.level_parser_table(chk, P, "C15")
     return chk
